@@ -1,12 +1,46 @@
-(* C02 — No inflation
-   Statements only; every proof is `exact <lemma>` into Mint/*.v (model: Mint/Model.v, semantics: Mint/Sem.v). *)
+(* C02 - No inflation: outstanding ecash plus Lightning outflow never exceeds inflow
+   Statements only; every proof is `exact <lemma>` into coq/Mint/*.v.
+
+   Reading guide (definitions in coq/Mint/*.v):
+     world            = store (tables spent/pending/signatures/mint quotes/melt quotes/keysets) + Lightning environment
+                        (invoices, scripted answers, log of pay calls) + the process memory (keysets, active keyset)
+     op               = one request (OSwap, OMint, OMelt, OMeltQuote, OMintQuote, OMintState, OMeltState, OCheck, ORestore,
+                        ORotate, ORestart, OWatcher, OBalance, OInfo) or environment step (ESettle, EScriptPay/Look, ...)
+     op_prog          = the request as a program over storage/Lightning calls, following mint/mint.go call by call
+     run p f w        = run program p from world w; f: which call positions get an injected storage error (no_fault: none)
+     run_n n p f w    = the same, but the process dies after n calls
+     step cfg f w o   = one request run to completion; run_history / reach: a sequential fault-free history from the empty store
+     hrun cfg w h     = a history of items: HNormal o | HFault o f | HCrash o n | HConc ops schedule (interleaving at call granularity)
+     WInv w           = every table has unique keys (Y, B_, quote ids, keyset ids)
+     Good w           = WInv w and no Y is both spent and pending
+     wext w w'        = spent and signature tables of w' extend those of w (nothing removed or altered)
+     same_but_calls   = nothing changed but the call counter
+     settled w h      = the backend reports the own invoice with payment hash h as settled
+
+   no_inflation: hypotheses cfg_ok (a melt limit below 2^61 sat is configured, fee reserve <= amount), uint64 request amounts,
+   truthful invoice notifications.  vS/vR = true sums of signature/spent amounts, vOut = commitments (amount+fee reserve) of PAID
+   melt quotes, esett = 1 iff the backend reports the quote's invoice settled, cnt id cred = internal settlements credited to it.
+*)
 From Coq Require Import ZArith List Bool.
-From Verif Require Import Model Sem InvDb InvSwap InvMint InvMelt Corollaries Queries.
+From Verif Require Import Model Sem InvDb InvSwap InvMint InvMelt Corollaries Queries Footprint HRel Global GlobalQuote GlobalValue GlobalErr GlobalQuery GlobalMelt GlobalKeys Cuts.
 Import ListNotations.
 Open Scope Z_scope.
 
-Theorem C02_swap_balanced : forall (mem_ks : list ksrow) (active : Z) (ins : list proof) (outs : list bmsg) (sg : bool) 
-         (w w' : world) (sigs : list srow),
+Theorem C02_no_inflation : forall (cfg : config) (h : list op),
+       cfg_ok cfg ->
+       honest cfg world0 h ->
+       Forall op_u64 h ->
+       let
+       '(w, _, cred) := qtrace cfg world0 h [] [] in
+        vS w + vOut w <= vR w + per_quote (fun m : mquote => esett w m + cnt (mq_id m) cred) (d_mq (w_db w)) /\
+        (forall q : lquote,
+         In q (d_lq (w_db w)) -> lq_state q = 1 -> lq_amount q + lq_fee q <= rows_sum (lq_id q) (w_db w)) /\
+        (forall q : lquote, In q (d_lq (w_db w)) -> lq_state q <> 1 -> rows_of_quote (lq_id q) (w_db w) = []).
+Proof. exact @no_inflation. Qed.
+Print Assumptions C02_no_inflation.
+
+Theorem C02_swap_balanced : forall (mem_ks : list ksrow) (active : Z) (ins : list proof) (outs : list bmsg) 
+         (sg : bool) (w w' : world) (sigs : list srow),
        WInv w ->
        run (swap mem_ks active ins outs sg) no_fault w = (w', Done (Ok sigs)) ->
        Forall (fun x : Z => 0 <= x < two64) (map b_amount outs) ->
@@ -18,7 +52,8 @@ Theorem C02_mint_within_quote : forall (mem_ks : list ksrow) (active id : Z) (ou
        WInv w ->
        run (mint_tokens mem_ks active id outs sig) no_fault w = (w', Done (Ok sigs)) ->
        Forall (fun x : Z => 0 <= x < two64) (map b_amount outs) ->
-       exists q : mquote, find_mq id (d_mq (w_db w)) = Some q /\ tsum (map s_amount sigs) <= mq_amount q \/ sigs = [].
+       exists q : mquote,
+         find_mq id (d_mq (w_db w)) = Some q /\ tsum (map s_amount sigs) <= mq_amount q \/ sigs = [].
 Proof. exact @mint_within_quote. Qed.
 Print Assumptions C02_mint_within_quote.
 
@@ -30,6 +65,14 @@ Theorem C02_melt_burns_enough : forall (cfg : config) (mem_ks : list ksrow) (id 
          add64 (add64 (lq_amount q) (lq_fee q)) (tx_fees mem_ks ins) <= tsum (map p_amount ins).
 Proof. exact @melt_burns_enough. Qed.
 Print Assumptions C02_melt_burns_enough.
+
+Theorem C02_validated_covers : forall (mem_ks : list ksrow) (q : lquote) (ins : list proof) (w : world),
+       0 <= lq_amount q ->
+       0 <= lq_fee q ->
+       lq_amount q + lq_fee q < two63 ->
+       melt_validated mem_ks q ins w -> lq_amount q + lq_fee q <= tsum (map p_amount ins).
+Proof. exact @validated_covers. Qed.
+Print Assumptions C02_validated_covers.
 
 Theorem C02_melt_fee_limit : forall (cfg : config) (mem_ks : list ksrow) (id : Z) (ins : list proof) (w w' : world) (q' : lquote),
        WInv w ->
